@@ -324,3 +324,9 @@ CMP = [(WCM, "pctr128_composed"), (WCM, "pctr64_composed"), ("WholeComposeM.v", 
 for pid, items in (("C05", CMP),):
     if pid in PLAN:
         add_imports(pid, WHI + ["ModelCipher", "ModelCtr", "ProofsApiCtr", "WholeProc", "WholeCtr", "WholeCtrModel", "WholeContracts", "WholeKeyTweak", "WholeMantis", "WholeCompose", "WholeComposeM"]); PLAN[pid] += items
+
+# parallel ECB with the single-block callee run by its own code (WholeComposePar.v)
+WCP = "WholeComposePar.v"
+for pid, items in (("C07", [(WCP, "ppar128_enc_composed"), (WCP, "ppar64_enc_composed")]),):
+    if pid in PLAN:
+        add_imports(pid, WHI + ["ModelCipher", "ModelCtr", "ProofsCtr", "ProofsApiCtr", "WholeProc", "WholeCtr", "WholeCtrModel", "WholePar", "WholeContracts", "WholeKeyTweak", "WholeCompose", "WholeComposePar"]); PLAN[pid] += items
